@@ -6,6 +6,7 @@ import facts
 import fieldflow as ff
 import e7_tables as e7
 import wildarms
+import totaliter
 import bodyorigins
 from ruleutil import find_fn, fields_read, run_mustflow
 
@@ -128,6 +129,7 @@ def check(rep, F, tier, replay=None):
                     rep.violation("SIGNER", "%s|%s-declared" % (f, k), "count_needed_vkeys never reaches %s for TransactionBuilder.%s: signers declared on a %s script source there are not counted, so size and fee are under-estimated by one key witness per such signer" % (acc, f, k), {"field": f, "kind": k, "callees_fed_by_field": sorted(by_field.get(f, ()))})
     # WILD
     wildarms.check(rep, F, "C18")
+    totaliter.check(rep, F, "C18")
     # BOOT
     rep.rule("BOOT", "fake_full_tx collects bootstrap addresses from both inputs and collateral")
     fid = find_fn(rep, F, "builders::tx_builder::fake_full_tx")
